@@ -1,6 +1,7 @@
 package checks
 
 import (
+	"bytes"
 	"fmt"
 	"time"
 
@@ -238,7 +239,54 @@ func c09StratUnit(c *core.Ctx, e *cat.Strat, cfg []float64) {
 		c.States++
 		c.Evaluations++
 	}
-	// concurrent: two Compute calls, and Compute next to a rendered Report, on one instance
+	// Report and Compute interleaved on ONE instance: Compute, rendered Report, Compute again
+	{
+		inst := e.New(cfg)
+		d0 := core.Dump(inst)
+		for step, kind := range []string{"compute", "report", "compute", "report"} {
+			li := 2 + step%2
+			sn := snapsOf(li)
+			cs := map[string]any{"strategy": e.Name, "config": cfg, "sequence": "compute, report, compute, report", "failing_call": step}
+			if kind == "compute" {
+				r := RunStrategy(inst, sn, 0, mc.Options{})
+				c.Executions++
+				c.Transitions += int64(r.Res.Events)
+				if !r.Healthy() || fmt.Sprint(r.Actions) != fresh[li] {
+					c.Fail("", fmt.Sprintf("%s: Compute after a Report on the same instance returned %v, a fresh instance returns %s", label, r.Actions, fresh[li]), cs)
+					break
+				}
+			} else {
+				render := func(s strategy.Strategy) (string, *mc.Result) {
+					var buf bytes.Buffer
+					res := mc.Run(func() {
+						rep := s.Report(Feed(sn, 0))
+						rep.GeneratedOn = ""
+						rep.WriteToWriter(&buf)
+					}, mc.Options{})
+					return buf.String(), res
+				}
+				got, res := render(inst)
+				want, _ := render(e.New(cfg))
+				c.Executions += 2
+				c.Transitions += int64(res.Events)
+				if len(res.Panics) > 0 {
+					c.Fail("", fmt.Sprintf("%s: Report on a reused instance panics: %s", label, res.Panics[0].Value), cs)
+					break
+				}
+				if got != want {
+					c.Fail("", fmt.Sprintf("%s: the report rendered from a reused instance differs from the one of a fresh instance", label), cs)
+					break
+				}
+			}
+			if d := core.Dump(inst); d != d0 {
+				c.Fail("", fmt.Sprintf("%s: %s changed the receiver: %s -> %s", label, kind, d0, d), cs)
+				break
+			}
+		}
+		c.States++
+		c.Evaluations++
+	}
+	// concurrent: two Compute calls on one instance
 	spairs := [][2]int{{2, 3}, {3, 3}, {4, 1}}
 	for pi, p := range spairs {
 		sc := func() explore.Exec {
@@ -396,7 +444,7 @@ func c09SharedUnit(c *core.Ctx) {
 func init() {
 	core.Register(&core.Check{
 		ID:   "C09",
-		Rule: "for every catalogued indicator and base strategy x configuration: (i) every ordered pair and four triples of sequential Compute calls on ONE instance with inputs of lengths {0,w,w+2,2w+1} compared with fresh instances, receiver dump compared after every call; (ii) two concurrent Compute calls on one instance with different inputs explored by DPOR (all traces) with the happens-before race detector and a receiver-immutability invariant evaluated at every scheduling point, plus an auxiliary delay-bounded (d<=1) search that assumes no independence, cut at 400 executions per scenario (counted); (iii) one strategy object shared by two compounds running concurrently; states = call sequences + concurrent scenarios, non-trivial = concurrent scenarios",
+		Rule: "for every catalogued indicator and base strategy x configuration: (i) every ordered pair and four triples of sequential Compute calls on ONE instance with inputs of lengths {0,w,w+2,2w+1} compared with fresh instances, receiver dump compared after every call; (ii) two concurrent Compute calls on one instance with different inputs explored by DPOR (all traces) with the happens-before race detector and a receiver-immutability invariant evaluated at every scheduling point, plus an auxiliary delay-bounded (d<=1) search that assumes no independence, cut at 400 executions per scenario (counted); (iii) Compute / rendered Report / Compute / Report on one strategy instance compared with fresh instances; (iv) one strategy object shared by two compounds running concurrently; states = call sequences + concurrent scenarios, non-trivial = concurrent scenarios",
 		Assume: []string{"race freedom is decided on instrumented accesses (fields through pointers, captured mutated variables, maps, slice elements) in every explored execution; a free-running -race pass is not part of this check",
 			"configurations: the quick period boxes of the catalogue"},
 		Units: func(tier string) []core.Unit {
